@@ -19,7 +19,7 @@ structure Rebond (E : Ising) (st mask : List Bool) (o o' : Op) : Prop where
   oldDiag : o.tagDiag = true ∧ o.outs = o.ins
   target : ∃ b wb wa u v j, (b, wb, wa) ∈ boundary E st mask ∧ o'.bond = b ∧
     E.edges.getD b (0, 0, 0) = (u, v, j) ∧ 0 < wa ∧ u ≠ v ∧ o'.vars = [u, v] ∧
-    o'.ins = [getB (xorL st mask) u, getB (xorL st mask) v]
+    o'.ins = [getB (xorL st mask) u, getB (xorL st mask) v] ∧ u < st.length ∧ v < st.length
   newDiag : o'.outs = o'.ins ∧ o'.tagDiag = true ∧ o'.const = o.const
   pos : 0 < E.opW o'
 
@@ -73,8 +73,8 @@ theorem rebondOk_sound {E : Ising} {st mask : List Bool} {o o' : Op} (h : rebond
     rcases hed : E.edges.getD b (0, 0, 0) with ⟨u, v, j⟩
     rw [hed] at h
     simp only [Bool.and_eq_true, decide_eq_true_eq, beq_iff_eq] at h
-    obtain ⟨⟨⟨⟨⟨⟨⟨⟨⟨h1, h2⟩, h3⟩, h4⟩, h5⟩, h6⟩, h7⟩, h8⟩, h9⟩, h10⟩ := h
-    exact ⟨⟨h1, h10⟩, ⟨b, wb, wa, u, v, j, hmem, hb.symm, hed, h2, h9, h4, h5⟩, ⟨h6, h7, h8⟩, h3⟩
+    obtain ⟨⟨⟨⟨⟨⟨⟨⟨⟨⟨⟨h1, h2⟩, h3⟩, h4⟩, h5⟩, h6⟩, h7⟩, h8⟩, h9⟩, h10⟩, h11⟩, h12⟩ := h
+    exact ⟨⟨h1, h10⟩, ⟨b, wb, wa, u, v, j, hmem, hb.symm, hed, h2, h9, h4, h5, h11, h12⟩, ⟨h6, h7, h8⟩, h3⟩
 
 theorem flipStep_sound {E : Ising} {p : Nat} {mask : List Bool} {tog : List Nat} {o o' : Op}
     {mask2 : List Bool} {tog2 : List Nat} (h : flipStep E p mask tog o o' = some (mask2, tog2)) :
@@ -185,6 +185,394 @@ theorem isRvbMove_sound {E : Ising} {b a : Config} {R : Region} (h : isRvbMove E
     subst hm1; subst ht
     exact moveSteps_sound _ _ _ _ _ _ _ _ _ hm
   · cases h3
+
+/-! ### what the relation preserves -/
+
+/-- slot occupancy is unchanged: same cutoff, same occupied slots, hence the same `n` -/
+theorem Steps.occupancy {E : Ising} {p st mask tog s s' m t} (h : Steps E p st mask tog s s' m t) :
+    s.map Option.isSome = s'.map Option.isSome := by
+  induction h with
+  | nil => rfl
+  | skip _ _ _ _ _ _ _ _ _ ih => simp [ih]
+  | rebond _ _ _ _ _ _ _ _ _ _ _ _ _ _ ih => simp [ih]
+  | flip _ _ _ _ _ _ _ _ _ _ _ _ _ _ _ _ _ _ _ _ _ _ _ ih => simp [ih]
+
+theorem countOps_eq_of_occupancy {s s' : Slots} (h : s.map Option.isSome = s'.map Option.isSome) :
+    countOps s = countOps s' := by
+  unfold countOps
+  have e : ∀ l : Slots, (l.filter Option.isSome).length = ((l.map Option.isSome).filter id).length := by
+    intro l; induction l with
+    | nil => rfl
+    | cons a t ih => cases a <;> simp [List.filter_cons, ih]
+  rw [e, e, h]
+
+/-- every operator of the new string has positive weight -/
+theorem Steps.legal {E : Ising} {p st mask tog s s' m t} (h : Steps E p st mask tog s s' m t) :
+    ∀ o', some o' ∈ s' → 0 < E.opW o' := by
+  induction h with
+  | nil => intro o' ho; simp at ho
+  | skip _ _ _ _ _ _ _ _ _ ih =>
+    intro o' ho
+    rcases List.mem_cons.1 ho with e | e
+    · cases e
+    · exact ih o' e
+  | rebond _ _ _ _ _ _ _ _ _ _ _ _ hr _ ih =>
+    intro o' ho
+    rcases List.mem_cons.1 ho with e | e
+    · injection e with e; subst e; exact hr.pos
+    · exact ih o' e
+  | flip _ _ _ _ _ _ _ _ _ _ _ _ _ _ _ _ _ _ _ _ _ hpos _ ih =>
+    intro o' ho
+    rcases List.mem_cons.1 ho with e | e
+    · injection e with e; subst e; exact hpos
+    · exact ih o' e
+
+/-! #### list lemmas for the consistency argument -/
+
+theorem xorL_length (a b : List Bool) (h : a.length = b.length) : (xorL a b).length = a.length := by
+  unfold xorL; simp [h]
+
+theorem getB_xorL (a b : List Bool) (h : a.length = b.length) (i : Nat) :
+    getB (xorL a b) i = (getB a i != getB b i) := by
+  unfold getB xorL
+  simp only [List.getD_eq_getElem?_getD, List.getElem?_zipWith]
+  by_cases hi : i < a.length
+  · have hi' : i < b.length := by omega
+    simp [List.getElem?_eq_getElem hi, List.getElem?_eq_getElem hi']
+  · simp [List.getElem?_eq_none (Nat.le_of_not_lt hi), List.getElem?_eq_none (by omega : b.length ≤ i)]
+
+theorem ext_getB {a b : List Bool} (hl : a.length = b.length) (h : ∀ i, getB a i = getB b i) : a = b := by
+  apply List.ext_getElem hl
+  intro i h1 h2
+  have := h i
+  unfold getB at this
+  simpa [List.getD_eq_getElem?_getD, List.getElem?_eq_getElem h1, List.getElem?_eq_getElem h2] using this
+
+theorem writeVars_length (st : List Bool) (vars : List Nat) (vals : List Bool) :
+    (writeVars st vars vals).length = st.length := by
+  unfold writeVars
+  induction vars generalizing st vals with
+  | nil => simp
+  | cons v vs ih =>
+    cases vals with
+    | nil => simp
+    | cons b bs => simp only [List.zip_cons_cons, List.foldl_cons]; rw [ih]; simp
+
+theorem toggleAt_length (mask : List Bool) (v : Nat) : (toggleAt mask v).length = mask.length := by
+  unfold toggleAt; simp
+
+theorem getB_toggleAt_ne (mask : List Bool) (v i : Nat) (h : i ≠ v) : getB (toggleAt mask v) i = getB mask i := by
+  unfold toggleAt getB
+  simp only [List.getD_eq_getElem?_getD]
+  rw [List.getElem?_set_ne (fun e => h e.symm)]
+
+/-- value written for variable `i`, if any -/
+def lk : List Nat → List Bool → Nat → Option Bool
+  | v :: vs, b :: bs, i => if v = i then some b else lk vs bs i
+  | _, _, _ => none
+
+theorem lk_cons (v : Nat) (vs : List Nat) (b : Bool) (bs : List Bool) (i : Nat) :
+    lk (v :: vs) (b :: bs) i = if v = i then some b else lk vs bs i := rfl
+
+theorem lk_none_of_not_mem (vars : List Nat) (vals : List Bool) (i : Nat) (h : i ∉ vars) : lk vars vals i = none := by
+  induction vars generalizing vals with
+  | nil => cases vals <;> rfl
+  | cons v vs ih =>
+    cases vals with
+    | nil => rfl
+    | cons b bs =>
+      rw [lk_cons]
+      have : v ≠ i := fun e => h (by simp [e])
+      simp only [this, if_false]
+      exact ih bs (fun hm => h (by simp [hm]))
+
+theorem lk_some_mem (vars : List Nat) (vals : List Bool) (i : Nat) (b : Bool) (h : lk vars vals i = some b) : i ∈ vars := by
+  by_contra hn
+  rw [lk_none_of_not_mem vars vals i hn] at h; cases h
+
+theorem lk_isSome_of_mem (vars : List Nat) (vals : List Bool) (i : Nat) (hl : vals.length = vars.length) (h : i ∈ vars) :
+    ∃ b, lk vars vals i = some b := by
+  induction vars generalizing vals with
+  | nil => simp at h
+  | cons v vs ih =>
+    cases vals with
+    | nil => simp at hl
+    | cons b bs =>
+      rw [lk_cons]
+      by_cases hv : v = i
+      · exact ⟨b, by simp [hv]⟩
+      · simp only [hv, if_false]
+        rcases List.mem_cons.1 h with e | e
+        · exact absurd e.symm hv
+        · exact ih bs (by simpa using hl) e
+
+theorem getB_set (st : List Bool) (v : Nat) (b : Bool) (i : Nat) :
+    getB (st.set v b) i = if v = i ∧ i < st.length then b else getB st i := by
+  unfold getB
+  simp only [List.getD_eq_getElem?_getD]
+  by_cases hv : v = i
+  · subst hv
+    by_cases hl : v < st.length
+    · simp [List.getElem?_set_self hl, hl]
+    · simp [hl, List.getElem?_eq_none (by simp; omega : (st.set v b).length ≤ v),
+        List.getElem?_eq_none (by omega : st.length ≤ v)]
+  · rw [List.getElem?_set_ne hv]; simp [hv]
+
+theorem getB_writeVars (st : List Bool) (vars : List Nat) (vals : List Bool) (hn : vars.Nodup) (i : Nat) :
+    getB (writeVars st vars vals) i =
+      match lk vars vals i with
+      | some b => if i < st.length then b else false
+      | none => getB st i := by
+  induction vars generalizing st vals with
+  | nil => cases vals <;> simp [writeVars, lk]
+  | cons v vs ih =>
+    cases vals with
+    | nil => simp [writeVars, lk]
+    | cons b bs =>
+      have hn' : vs.Nodup := (List.nodup_cons.1 hn).2
+      have hv : v ∉ vs := (List.nodup_cons.1 hn).1
+      have e : writeVars st (v :: vs) (b :: bs) = writeVars (st.set v b) vs bs := by
+        simp [writeVars]
+      rw [e, ih (st.set v b) bs hn']
+      rw [lk_cons]
+      by_cases hvi : v = i
+      · subst hvi
+        rw [lk_none_of_not_mem vs bs v hv]
+        simp only [if_true, getB_set]
+        by_cases hl : v < st.length
+        · simp [hl]
+        · simp only [hl, and_false, if_false]
+          unfold getB
+          simp [List.getD_eq_getElem?_getD, List.getElem?_eq_none (by omega : st.length ≤ v)]
+      · simp only [hvi, if_false]
+        cases lk vs bs i with
+        | none => simp [getB_set, hvi]
+        | some c => simp
+
+theorem lk_xorL (vars : List Nat) (vals : List Bool) (mask : List Bool) (i : Nat) (hl : vals.length = vars.length) :
+    lk vars (xorL vals (vars.map (getB mask))) i = (lk vars vals i).map (fun b => b != getB mask i) := by
+  induction vars generalizing vals with
+  | nil => cases vals <;> simp [lk, xorL]
+  | cons v vs ih =>
+    cases vals with
+    | nil => simp at hl
+    | cons b bs =>
+      have : xorL (b :: bs) ((v :: vs).map (getB mask)) = (b != getB mask v) :: xorL bs (vs.map (getB mask)) := by
+        simp [xorL]
+      rw [this, lk_cons, lk_cons]
+      by_cases hv : v = i
+      · subst hv; simp
+      · simp only [hv, if_false]
+        exact ih bs (by simpa using hl)
+
+/-- writing matched inputs back changes nothing -/
+theorem writeVars_matched (st : List Bool) (vars : List Nat) (ins : List Bool)
+    (h : ((vars.zip ins).all fun vb => st[vb.1]? == some vb.2) = true) : writeVars st vars ins = st := by
+  unfold writeVars
+  induction vars generalizing ins st with
+  | nil => simp
+  | cons v vs ih =>
+    cases ins with
+    | nil => simp
+    | cons b bs =>
+      simp only [List.zip_cons_cons, List.all_cons, Bool.and_eq_true, beq_iff_eq] at h
+      have : st.set v b = st := by
+        apply List.ext_getElem?
+        intro j
+        by_cases hj : v = j
+        · subst hj
+          have hl : v < st.length := by
+            by_contra hc
+            rw [List.getElem?_eq_none (by omega)] at h; cases h.1
+          rw [List.getElem?_set_self hl, h.1]
+        · rw [List.getElem?_set_ne hj]
+      simp only [List.zip_cons_cons, List.foldl_cons, this]
+      exact ih st bs h.2
+
+theorem inputsMatch_xor (st mask : List Bool) (hl : st.length = mask.length) (vars : List Nat) (ins : List Bool)
+    (hli : ins.length = vars.length)
+    (h : ((vars.zip ins).all fun vb => st[vb.1]? == some vb.2) = true) :
+    ((vars.zip (xorL ins (vars.map (getB mask)))).all fun vb => (xorL st mask)[vb.1]? == some vb.2) = true := by
+  induction vars generalizing ins with
+  | nil => simp
+  | cons v vs ih =>
+    cases ins with
+    | nil => simp at hli
+    | cons b bs =>
+      have e : xorL (b :: bs) ((v :: vs).map (getB mask)) = (b != getB mask v) :: xorL bs (vs.map (getB mask)) := by
+        simp [xorL]
+      rw [e]
+      simp only [List.zip_cons_cons, List.all_cons, Bool.and_eq_true, beq_iff_eq] at h ⊢
+      refine ⟨?_, ih bs (by simpa using hli) h.2⟩
+      have hv : v < st.length := by
+        by_contra hc
+        rw [List.getElem?_eq_none (by omega)] at h; cases h.1
+      have hv' : v < mask.length := by omega
+      have hs : st[v] = b := by
+        have := h.1
+        rw [List.getElem?_eq_getElem hv] at this
+        injection this
+      unfold xorL getB
+      rw [List.getElem?_zipWith]
+      simp [List.getElem?_eq_getElem hv, List.getElem?_eq_getElem hv', hs, List.getD_eq_getElem?_getD]
+
+/-- **the consistency core**: along a walk the new string propagates the flipped state exactly
+as the old string propagates the old state, with the running membership as the difference. -/
+theorem Steps.propagate {E : Ising} {p st mask tog s s' m t} (h : Steps E p st mask tog s s' m t)
+    (hl : st.length = mask.length) :
+    ∃ e, Qmc.propagate st s = some e ∧ Qmc.propagate (xorL st mask) s' = some (xorL e m) ∧
+      e.length = m.length := by
+  induction h with
+  | nil p st mask tog => exact ⟨st, rfl, rfl, hl⟩
+  | skip _ _ _ _ _ _ _ _ _ ih =>
+    obtain ⟨e, h1, h2, h3⟩ := ih hl
+    exact ⟨e, by simpa [Qmc.propagate] using h1, by simpa [Qmc.propagate] using h2, h3⟩
+  | rebond p st mask tog o o' s s' m t hin _ hr _ ih =>
+    have hwm : writeVars st o.vars o.outs = st := by
+      rw [hr.oldDiag.2]
+      exact writeVars_matched st o.vars o.ins (by simpa [inputsMatch] using hin)
+    rw [hwm] at ih
+    obtain ⟨e, h1, h2, h3⟩ := ih hl
+    obtain ⟨b, wb, wa, u, v, j, _, _, _, _, huv, hvars, hins, hu, hv⟩ := hr.target
+    have hxl : (xorL st mask).length = st.length := xorL_length st mask hl
+    refine ⟨e, ?_, ?_, h3⟩
+    · simp only [Qmc.propagate, applyOp, hin, if_true, hwm]; exact h1
+    · have him : inputsMatch (xorL st mask) o' = true := by
+        unfold inputsMatch
+        rw [hvars, hins]
+        simp only [List.zip_cons_cons, List.zip_nil_right, List.all_cons, List.all_nil, Bool.and_true,
+          Bool.and_eq_true, beq_iff_eq]
+        unfold getB
+        constructor
+        · rw [List.getD_eq_getElem?_getD, List.getElem?_eq_getElem (by omega)]; rfl
+        · rw [List.getD_eq_getElem?_getD, List.getElem?_eq_getElem (by omega)]; rfl
+      have hw : writeVars (xorL st mask) o'.vars o'.outs = xorL st mask := by
+        rw [hr.newDiag.1]
+        exact writeVars_matched _ _ _ (by simpa [inputsMatch] using him)
+      simp only [Qmc.propagate, applyOp, him, if_true, hw]; exact h2
+  | flip p st mask tog o o' s s' m t isTog mask2 hin _ _ c1 c2 hnd hli hlo ho' _ _ ih =>
+    have hm2 : mask2.length = mask.length := by
+      cases isTog with
+      | true => obtain ⟨_, v, _, hm⟩ := c1 rfl; rw [hm, toggleAt_length]
+      | false => rw [(c2 rfl).1]
+    have hoff : ∀ i, i ∉ o.vars → getB mask2 i = getB mask i := by
+      intro i hi
+      cases isTog with
+      | true =>
+        obtain ⟨_, v, hv, hm⟩ := c1 rfl
+        rw [hm]
+        apply getB_toggleAt_ne
+        intro e; apply hi; rw [hv, e]; simp
+      | false => rw [(c2 rfl).1]
+    have hl2 : (writeVars st o.vars o.outs).length = mask2.length := by
+      rw [writeVars_length, hm2, hl]
+    obtain ⟨e, h1, h2, h3⟩ := ih hl2
+    refine ⟨e, ?_, ?_, h3⟩
+    · simp only [Qmc.propagate, applyOp, hin, if_true]; exact h1
+    · have hvars : o'.vars = o.vars := by rw [ho']; rfl
+      have hins : o'.ins = xorL o.ins (o.vars.map (getB mask)) := by rw [ho']; rfl
+      have houts : o'.outs = xorL o.outs (o.vars.map (getB mask2)) := by rw [ho']; rfl
+      have him : inputsMatch (xorL st mask) o' = true := by
+        unfold inputsMatch
+        rw [hvars, hins]
+        exact inputsMatch_xor st mask hl o.vars o.ins hli (by simpa [inputsMatch] using hin)
+      have hw : writeVars (xorL st mask) o'.vars o'.outs = xorL (writeVars st o.vars o.outs) mask2 := by
+        rw [hvars, houts]
+        apply ext_getB
+        · rw [writeVars_length, xorL_length _ _ hl, xorL_length _ _ hl2, writeVars_length]
+        · intro i
+          rw [getB_writeVars _ _ _ hnd, getB_xorL _ _ hl2, getB_writeVars _ _ _ hnd, lk_xorL _ _ _ _ hlo,
+            xorL_length _ _ hl]
+          cases hk : lk o.vars o.outs i with
+          | some b =>
+            simp only [Option.map_some]
+            by_cases hi : i < st.length
+            · simp [hi]
+            · simp only [hi, if_false]
+              have : getB mask2 i = false := by
+                unfold getB
+                rw [List.getD_eq_getElem?_getD, List.getElem?_eq_none (by omega)]; rfl
+              rw [this]; rfl
+          | none =>
+            simp only [Option.map_none]
+            have hni : i ∉ o.vars := by
+              intro hmem
+              obtain ⟨b, hb⟩ := lk_isSome_of_mem o.vars o.outs i hlo hmem
+              rw [hb] at hk; cases hk
+            rw [getB_xorL _ _ hl, hoff i hni]
+      simp only [Qmc.propagate, applyOp, him, if_true, hw]; exact h2
+
+/-- `Consistent` is preserved -/
+theorem RvbMove.consistent {E : Ising} {b a : Config} {R : Region} (h : RvbMove E b a R)
+    (hb : Consistent b) : Consistent a := by
+  obtain ⟨h1, h2, h3⟩ := h
+  obtain ⟨e, p1, p2, _⟩ := h3.propagate h2
+  unfold Consistent at hb ⊢
+  rw [hb] at p1
+  injection p1 with p1
+  subst p1
+  rw [h1]; exact p2
+
+/-- every operator of the result has positive weight (`Legal`, C07) -/
+theorem RvbMove.legal {E : Ising} {b a : Config} {R : Region} (h : RvbMove E b a R) : Legal E a.slots :=
+  fun o ho => h.2.2.legal o ho
+
+/-- the number of operators (and the cutoff) is unchanged -/
+theorem RvbMove.count {E : Ising} {b a : Config} {R : Region} (h : RvbMove E b a R) :
+    countOps a.slots = countOps b.slots ∧ a.slots.length = b.slots.length := by
+  have := h.2.2.occupancy
+  refine ⟨(countOps_eq_of_occupancy this).symm, ?_⟩
+  have := congrArg List.length this
+  simpa using this.symm
+
+/-! #### op by op: outside untouched, inside flipped symmetrically -/
+
+theorem xorL_all_false (l : List Bool) (vars : List Nat) (mask : List Bool) (hl : l.length = vars.length)
+    (h : ∀ v ∈ vars, getB mask v = false) : xorL l (vars.map (getB mask)) = l := by
+  induction vars generalizing l with
+  | nil => cases l with
+    | nil => rfl
+    | cons a t => simp at hl
+  | cons v vs ih =>
+    cases l with
+    | nil => simp at hl
+    | cons a t =>
+      have e : xorL (a :: t) ((v :: vs).map (getB mask)) = (a != getB mask v) :: xorL t (vs.map (getB mask)) := by
+        simp [xorL]
+      rw [e, h v (by simp), ih t (by simpa using hl) (fun w hw => h w (by simp [hw]))]
+      simp
+
+theorem xorL_all_true (l : List Bool) (vars : List Nat) (mask : List Bool) (hl : l.length = vars.length)
+    (h : ∀ v ∈ vars, getB mask v = true) : xorL l (vars.map (getB mask)) = flipAll l := by
+  induction vars generalizing l with
+  | nil => cases l with
+    | nil => rfl
+    | cons a t => simp at hl
+  | cons v vs ih =>
+    cases l with
+    | nil => simp at hl
+    | cons a t =>
+      have e : xorL (a :: t) ((v :: vs).map (getB mask)) = (a != getB mask v) :: xorL t (vs.map (getB mask)) := by
+        simp [xorL]
+      rw [e, h v (by simp), ih t (by simpa using hl) (fun w hw => h w (by simp [hw]))]
+      simp [flipAll]
+
+/-- an operator none of whose variables is in the region (and that is not a toggle) is untouched -/
+theorem xorOp_outside (o : Op) (mask : List Bool) (hi : o.ins.length = o.vars.length)
+    (ho : o.outs.length = o.vars.length) (h : ∀ v ∈ o.vars, getB mask v = false) :
+    xorOp o mask mask false = o := by
+  unfold xorOp
+  simp only [Bool.false_eq_true, if_false]
+  rw [xorL_all_false _ _ _ hi h, xorL_all_false _ _ _ ho h]
+
+/-- an operator completely inside the region has all inputs and outputs flipped, everything else
+(variables, bond, constant flag, diagonal tag) kept -/
+theorem xorOp_inside (o : Op) (mask : List Bool) (hi : o.ins.length = o.vars.length)
+    (ho : o.outs.length = o.vars.length) (h : ∀ v ∈ o.vars, getB mask v = true) :
+    xorOp o mask mask false = { o with ins := flipAll o.ins, outs := flipAll o.outs } := by
+  unfold xorOp
+  simp only [Bool.false_eq_true, if_false]
+  rw [xorL_all_true _ _ _ hi h, xorL_all_true _ _ _ ho h]
 
 end Rvb
 end Qmc
